@@ -411,6 +411,9 @@ class LibMixin:
     def b_print(self, node, st):
         return NONE
 
+    def b_warn(self, node, st):
+        return NONE  # warnings.warn: no effect on the state
+
     def b_isinstance(self, node, st):
         raise VCError("isinstance at line %d" % node.lineno)
 
@@ -524,6 +527,30 @@ class LibMixin:
             o.dom = z3.Store(o.dom, kt, z3.BoolVal(True))
             return NONE
         raise VCError("add on %r at line %d" % (o, node.lineno))
+
+    def m_to_list(self, recv, node, st):
+        """pandas IntervalIndex.to_list(): a fresh python list of the intervals (modelled as (left, right) records)."""
+        self.trust("library contract: pandas IntervalIndex.to_list / IntervalIndex(list) / Interval(left, right) as a list of (left, right) records")
+        o = st.obj(recv)
+        return st.alloc(HListTup(o.kinds, o.cols, o.n, o.names))
+
+    def l_pd_Interval(self, node, st):
+        kw = {k.arg: self.eval(k.value, st) for k in node.keywords}
+        return Tup([Sc("real", to_real(kw["left"])), Sc("real", to_real(kw["right"]))], ["left", "right"])
+
+    def l_pd_IntervalIndex(self, node, st):
+        return self.eval(node.args[0], st)
+
+    def m_insert(self, recv, node, st):
+        pos = z3.simplify(self.eval_int(node.args[0], st))
+        v = self.eval(node.args[1], st)
+        o = st.mut(recv)
+        if isinstance(o, HListTup) and isinstance(v, Tup) and z3.is_int_value(pos) and pos.as_long() == 0:
+            k = z3.Int("k!ins")
+            o.cols = [z3.Lambda([k], ite(k == 0, self.conv(x, kd), z3.Select(c, k - 1))) for c, x, kd in zip(o.cols, v.items, o.kinds)]
+            o.n = z3.simplify(o.n + 1)
+            return NONE
+        raise VCError("list.insert form at line %d" % node.lineno)
 
     def m_values(self, recv, node, st):
         return ("dictvalues", recv)
@@ -674,6 +701,23 @@ class LibMixin:
         raise VCError("np.array of %r at line %d" % (v, node.lineno))
 
     l_np_asarray = l_np_array
+
+    def l_np_where(self, node, st):
+        """np.where(mask) -> (indices,): strictly increasing, exactly the positions where mask holds."""
+        b = self.eval(node.args[0], st)
+        if not self.is_arr1(st, b) or self.elem_kind(st, b) != "bool" or len(node.args) != 1:
+            raise VCError("np.where form at line %d" % node.lineno)
+        n = self.length_of(st, b)
+        r = new_arr("int", "where")
+        w = fresh_func("wherew", INT, INT)
+        j, k = fresh("j", INT), fresh("k", INT)
+        rk = z3.Select(r.a, k)
+        st.assume(z3.And(r.n >= 0, r.n <= n))
+        st.assume(qall([k], z3.Implies(z3.And(k >= 0, k < r.n), z3.And(rk >= 0, rk < n, self.read_elem(st, b, rk))), pats=[rk]))
+        st.assume(qall([j, k], z3.Implies(z3.And(0 <= j, j < k, k < r.n), z3.Select(r.a, j) < rk), pats=[z3.MultiPattern(z3.Select(r.a, j), rk)]))
+        bj = self.read_elem(st, b, j)
+        st.assume(qall([j], z3.Implies(z3.And(j >= 0, j < n, bj), z3.And(w(j) >= 0, w(j) < r.n, z3.Select(r.a, w(j)) == j)), pats=[bj]))
+        return Tup([st.alloc(r)])
 
     def l_np_mean(self, node, st):
         self.eval(node.args[0], st)
